@@ -29,6 +29,12 @@ class Leaf(pg.Object):
     ('fz', pg.typing.Int(default=7).freeze(), 'frozen'),
     ('kids', pg.typing.List(pg.typing.Object(Leaf), default=[]), 'object list'),
     ('req', pg.typing.Int(), 'required'),
+    ('pd', pg.typing.Dict([
+        ('r', pg.typing.Int()),
+        ('s', pg.typing.Str(default='x')),
+    ]).noneable(), 'dict with a required key'),
+    ('pl', pg.typing.List(pg.typing.Dict([('r', pg.typing.Int())]), max_size=3).noneable(),
+     'list of dicts with a required key'),
 ])
 class Node(pg.Object):
     allow_symbolic_assignment = True
@@ -158,6 +164,15 @@ def build(desc, symbolic=True):
         return tuple(build(x, symbolic) for x in desc[1])
     if k == 'oneof':
         return pg.oneof(list(desc[1]))
+    if k == 'typed':
+        # a typed pg.Dict / pg.List value with its own (compatible) value spec,
+        # complete or partial (created with allow_partial=True, a required key missing)
+        which, partial = desc[1], desc[2]
+        if which == 'pd':
+            spec = pg.typing.Dict([('r', pg.typing.Int()), ('s', pg.typing.Str(default='x'))])
+            return pg.Dict({} if partial else {'r': 1}, value_spec=spec, allow_partial=partial)
+        spec = pg.typing.List(pg.typing.Dict([('r', pg.typing.Int())]), max_size=3)
+        return pg.List([{}] if partial else [{'r': 2}], value_spec=spec, allow_partial=partial)
     if k == 'leaf':
         return Leaf(**desc[1])
     if k == 'node':
